@@ -367,12 +367,74 @@ def stream_filter(ctx, rng, N):
                           tags=['F8-nan-passes-filter'] if 'nan' in c['gt'] + c['eq'] else [])
 
 
+def _pow2(q):
+    q = abs(F(q))
+    return q != 0 and (q.numerator & (q.numerator - 1)) == 0 and (q.denominator & (q.denominator - 1)) == 0
+
+
+def gen_cands_case(rng):
+    """input of `_dual_age_cone_solution_recovery` on which float arithmetic is exact: v_i and every nonzero v_reduced are powers of two,
+    mu and M are small dyadics; half of the cases are moment solutions (mu_i = v_i x)"""
+    n = rng.randint(1, 3)
+    m = rng.randint(1, 5)
+    v = [F(rng.choice([0, 0, F(1, 4), F(1, 2), 1, 1, 2, 4])) for _ in range(m)]
+    idx = [i for i in range(m) if rng.random() < 0.8]
+    rng.shuffle(idx)
+    moment = rng.random() < 0.5
+    x = [F(rng.randint(-8, 8), 4) for _ in range(n)]
+    mus = []
+    for i in idx:
+        if moment:
+            mus.append({'i': i, 'mu': [frac_str(v[i] * t) for t in x]})
+        else:
+            mus.append({'i': i, 'mu': [frac_str(F(rng.randint(-8, 8), 4)) for _ in range(n)]})
+    live = [i for i in idx if v[i] > 0]
+    M = []
+    for _ in range(rng.randint(0, 5)):
+        for _try in range(30):
+            row = [F(rng.choice([0, 0, 1, 1, 2, 4, -1, F(1, 2)])) if rng.random() < 0.7 else F(0) for _ in range(m)]
+            vr = sum(row[i] * v[i] for i in live)
+            if vr == 0 or _pow2(vr):
+                M.append(row)
+                break
+    return {'n': n, 'v': [frac_str(t) for t in v], 'mus': mus, 'M': [[frac_str(t) for t in r] for r in M], 'moment': moment,
+            'x': [frac_str(t) for t in x], 'live': len(live)}
+
+
+def stream_cands(ctx, rng, N):
+    """the real `_dual_age_cone_solution_recovery` (filter switched off by empty constraint lists) vs the model's `dualAgeCands`;
+    oracle: at a moment solution with a positive v_i the list must be exactly [x] (`Props/C17Cands.moment_recovered`)"""
+    import types
+    from sageopt.relaxations.sig_solution_recovery import _dual_age_cone_solution_recovery
+
+    def impl(c):
+        m = len(c['v'])
+        con = types.SimpleNamespace(mu_vars={e['i']: types.SimpleNamespace(value=np.array([float(F(t)) for t in e['mu']])) for e in c['mus']})
+        v = np.array([float(F(t)) for t in c['v']])
+        M = np.array([[float(F(t)) for t in r] for r in c['M']]).reshape(len(c['M']), m)
+        with np.errstate(all='ignore'):
+            out = _dual_age_cone_solution_recovery(con, v, M, [], [], 1e-8, 1e-6)
+        return {'cands': [[frac_str(F(float(t))) for t in np.asarray(xi, dtype=float).ravel()] for xi in out]}
+
+    cases = [gen_cands_case(rng) for _ in range(N)]
+    res = common.correspond(ctx, 'cands', cases, impl,
+                            lambda c: {'op': 'solrec.dual_age_cands', 'n': c['n'], 'v': c['v'], 'mus': c['mus'], 'M': c['M']},
+                            nontrivial=lambda c, io: c['live'] > 0)
+    for c, io, mo in res:
+        if c['moment']:
+            ctx.count('cands:moment')
+        if c['moment'] and c['live'] > 0 and isinstance(io, dict) and 'cands' in io and io['cands'] != [c['x']]:
+            ctx.violation('dual-AGE-cone recovery at the moment solution of x = %s (mu_i = v_i x) returns the candidates %s instead of [x]'
+                          % (c['x'], io['cands'][:4]), {'stream': 'cands', 'case': c})
+
+
 def run(ctx):
     rng = ctx.rng
     ctx.lean = common.lean_check('C17')
     quick = ctx.quick()
     common.run_regressions(ctx, 'C17', recheck)
     stream_filter(ctx, rng, 300 if quick else 3000)
+    stream_cands(ctx, rng, 200 if quick else 2000)
     problems = []
     for e in common.load_corpus('C17'):
         if 'problem' in e and 'regress' not in e:
